@@ -7,6 +7,8 @@ mod acc;
 mod arena;
 mod c05;
 mod c10;
+mod c11;
+mod dev;
 mod refenc;
 mod rng;
 mod runner;
@@ -46,6 +48,10 @@ macro_rules! with_scenario {
             }
             "C09" => {
                 type $s = acc::C09;
+                $body
+            }
+            "C11" => {
+                type $s = c11::C11;
                 $body
             }
             other => {
